@@ -1,3 +1,4 @@
+import math
 from enum import Enum
 from qbee import expr
 from .trap import TrapCode, Trapped
@@ -54,7 +55,12 @@ class CellValue:
             CellType.STRING: expr.Type.STRING,
         }.get(self.type)
         if expr_type is not None:
-            if not expr_type.can_hold(value):
+            # an infinity or a NaN is an overflow, not a value: letting
+            # one into a cell makes later conversions fail with host
+            # exceptions.
+            non_finite = isinstance(value, float) and \
+                not math.isfinite(value)
+            if non_finite or not expr_type.can_hold(value):
                 raise Trapped(
                     trap_code=TrapCode.INVALID_CELL_VALUE,
                     trap_kwargs={
